@@ -271,6 +271,40 @@ fn text_forms(bytes: &[u8]) -> Vec<(&'static str, String)> {
     v
 }
 
+const H28: &str = "581c 11111111111111111111111111111111111111111111111111111111";
+const H32: &str = "5820 2222222222222222222222222222222222222222222222222222222222222222";
+
+/// (type, name, CBOR hex with `{28}` / `{32}` standing for a 28 / 32 byte string)
+const EXTRA_RESULTS_SRC: [(&str, &str, &str); 7] = [
+    // [ {cred => [hot_cred_auth_status, status, expiration, next_epoch_change]}, threshold, epoch ]
+    (
+        "queries_v16::CommitteeMembersState",
+        "CommitteeMembersState",
+        "83 a2 8200{28} 84 8200 8201{28} 00 8105 820407  8201{28} 84 8202 81 82 6161{32} 01 80 8102  81 d81e820102 1901f4",
+    ),
+    // [proposals, committee, constitution, cur_pparams, prev_pparams, future_pparams, drep_pulsing_state]
+    ("queries_v16::GovState", "GovState/NoPParamsUpdate", "87 80 80 82 82 6161{32} f6 80 80 8100 80"),
+    ("queries_v16::GovState", "GovState/Definite", "87 80 81 82 a1 8200{28} 05 d81e820203 82 82 6161{32} {28} 80 80 8201a0 80"),
+    ("queries_v16::GovState", "GovState/Potential", "87 80 80 82 82 6161{32} f6 80 80 8202 81 a1 00 01 80"),
+    // [enact_state, enacted, expired, delayed]
+    (
+        "queries_v16::RatifyState",
+        "RatifyState",
+        "84 87 80 82 82 6161{32} f6 80 80 00 a0 84 80 80 80 80  81 87 82{32}00 a0 a0 a0 84 00 581d e0 11111111111111111111111111111111111111111111111111111111 8106 82 6161{32} 01 02  d90102 81 82{32}01 f4",
+    ),
+    // [GovActionState]
+    (
+        "Vec<queries_v16::GovActionState>",
+        "GovActionState/NoConfidence",
+        "81 87 82{32}00 a1 8200{28} 01 a1 8201{28} 00 a1 {28} 02 84 1a000f4240 581d e0 11111111111111111111111111111111111111111111111111111111 8203 f6 82 6161{32} 01 02",
+    ),
+    ("BTreeMap<queries_v16::DRep, Coin>", "DRepStakeDistr", "a3 8200{28} 01 8102 02 8103 03"),
+];
+
+fn extra_results() -> Vec<(&'static str, &'static str, String)> {
+    EXTRA_RESULTS_SRC.iter().map(|(t, n, h)| (*t, *n, h.replace("{28}", H28).replace("{32}", H32))).collect()
+}
+
 pub fn build(cat: &[Entry]) -> Vec<Seed> {
     let id = |n: &str| entries::find(cat, n);
     let mut seeds: Vec<Seed> = vec![];
@@ -391,6 +425,18 @@ pub fn build(cat: &[Entry]) -> Vec<Seed> {
             }
         }
         seeds.push(Seed { family: format!("msg:{fam}"), name: variant, bytes, entries: es, text: false, cut_every_byte: false });
+    }
+    // hand-written results of the typed local-state queries that the message
+    // enumerator has no case for; each must decode (checked below)
+    for (ty, name, hexs) in extra_results() {
+        let fam = format!("pallas-network/localstate:{ty}");
+        let bytes = hex::decode(hexs.replace(' ', "")).unwrap_or_else(|_| mc_core::report::machinery_failure(&format!("extra seed {name} is not hex")));
+        let e = id(&fam);
+        match (cat[e].call)(&bytes, false).res {
+            entries::Res::Ok(_) => {}
+            other => mc_core::report::machinery_failure(&format!("hand-written seed {name} does not decode as {ty}: {other:?}")),
+        }
+        typed.push((fam, format!("hand-written:{name}"), bytes));
     }
     for (fam, variant, bytes) in typed {
         seeds.push(Seed { family: format!("msg:{fam}"), name: format!("{variant}:payload"), bytes, entries: vec![id(&fam)], text: false, cut_every_byte: false });
